@@ -99,7 +99,7 @@ class RuleTable:
             elif isinstance(st, ast.If):
                 from .model import static_module_cond
 
-                v = static_module_cond(m, st.test, env if self._depth > 0 else None)
+                v = static_module_cond(m, st.test, env if (self._depth > 0 or self._in_loop > 0) else None)
                 if v is None or (self.both and _mentions_version(st.test)):
                     if v is None and not _mentions_version(st.test):
                         # an unknown top-level condition: analyse both arms
